@@ -182,6 +182,65 @@ def main():
     elif not core_ok:
         broken.append(("model", "the model files needed to evaluate the correspondence do not compile"))
 
+    # ---- 4b. C05: the cycle detector itself on explicit digraphs (hook VerifIsAcyclic)
+    graph_cov = None
+    if prop == "C05" and core_ok:
+        import graphs
+        gs, gres, gviol, gdist = graphs.check_graphs(tier, seed)
+        graph_cov = dict(graphs=len(gs), disagreements=len(gviol), **gdist)
+        if gviol:
+            gi, code = gviol[0]
+            p = write_replay(prop, f"graph-{code}-{gi}", {"property": prop, "level": "graph",
+                             "meaning": {1: "verdict differs from Graph.is_acyclic", 2: "reported path differs from the model's",
+                                         3: "reported path is not a closed path of the graph", 4: "model out of fuel"}.get(code),
+                             "adjacency": gs[gi], "implementation": gres[gi]})
+            if code == 3 or code == 1:
+                print(f"VIOLATION property={prop} replay={p}")
+            else:
+                print(f"VIOLATION property={prop} replay={p} no-failing-input-found")
+            violations += 1
+
+    # ---- 4c. C14 / C18: the grammar stream against Parse.v (DryRun container)
+    raw_cov = None
+    if prop in ("C14", "C18") and all(f in built for f in ("GoTypes", "Parse", "RunRaw")):
+        import rawcheck
+        rcorpus = load_corpus(prop + "-raw")
+        rcases, rtraces, rM, rV, rdist = rawcheck.check(tier, seed, rcorpus)
+        if prop == "C14":
+            rviol = [(ci, oi, code) for (ci, oi, code) in rV]
+            rmis = [(ci, oi) for (ci, oi, code) in rM if code == 1]
+        else:
+            rviol = [(ci, oi, 1800 + code) for (ci, oi, code) in rM if code == 2]
+            rmis = []
+        raw_cov = dict(rdist, disagreements=len(set(m[0] for m in rmis)), checker_failures=len(rviol))
+        seen_codes = set()
+        for (ci, oi, code) in rviol:
+            if code in seen_codes:
+                continue
+            seen_codes.add(code)
+
+            def rpred(cand, code=code):
+                cs, ts, m2, v2 = rawcheck.run_raw([cand])
+                if prop == "C14":
+                    return any(x[2] == code for x in v2)
+                return any(x[2] == 2 for x in m2)
+            small = rawcheck.shrink(rcases[ci], rpred)
+            cs, ts = common.run_impl([small])
+            p = write_replay(prop, f"raw-{code}-{case_hash(small)}",
+                             {"property": prop, "failing_code": code,
+                              "meaning": {1401: "dig (or Visualize/String) panicked on this input", 1403: "an input the signature grammar rejects was accepted",
+                                          1802: "the Info struct differs from the declared inputs/outputs (or was touched by a rejected call)"}.get(code, ""),
+                              "case": cs[0], "implementation_trace": ts[0]})
+            print(f"VIOLATION property={prop} replay={p}")
+            violations += 1
+        if rmis and not rviol:
+            ci, oi = rmis[0]
+            p = write_replay(prop, f"raw-corr-{case_hash(rcases[ci])}",
+                             {"property": prop, "obligation": "corr_raw: Parse.v and the implementation give the same verdict class on the grammar stream",
+                              "disagreeing_case": rcases[ci], "operation": oi, "implementation_trace": rtraces[ci]})
+            print(f"VIOLATION property={prop} replay={p} no-failing-input-found")
+            violations += 1
+
     # ---- 5. verdicts
     def is_known(code):
         for k in known:
@@ -244,6 +303,16 @@ def main():
                model_impl_disagreements=len(set(m[0] for m in M)),
                checker_failures=len(V), known_finding_hits=sum(known_hits.values()),
                input_distribution=dist)
+    if raw_cov:
+        cov["grammar_stream"] = raw_cov
+        cov["evaluations"] += raw_cov["raw_cases"]
+        cov["distinct_nontrivial"] += raw_cov["raw_cases"]
+        cov["traces_validated_against_impl"] += raw_cov["raw_cases"] - raw_cov["disagreements"]
+    if graph_cov:
+        cov["graph_level"] = graph_cov
+        cov["evaluations"] += graph_cov["graphs"]
+        cov["distinct_nontrivial"] += graph_cov["graphs"]
+        cov["traces_validated_against_impl"] += graph_cov["graphs"] - graph_cov["disagreements"]
     write_evidence(prop, tier, seed, spec, t0, cov, violations, assumptions, broken,
                    props.samples(cases, traces))
     return 1 if violations else 0
